@@ -320,8 +320,14 @@ func ruleReaderPinning(r *Report, rule string) {
 	ret := false
 	for _, rs := range returnsOf(fi.Decl.Body) {
 		if len(rs.Results) == 1 && len(addrefs) == 1 {
-			if sel, isSel := ast.Unparen(addrefs[0].Fun).(*ast.SelectorExpr); isSel && objOf(info, sel.X) == objOf(info, rs.Results[0]) && objOf(info, sel.X) != nil {
-				ret = true
+			if sel, isSel := ast.Unparen(addrefs[0].Fun).(*ast.SelectorExpr); isSel {
+				if objOf(info, sel.X) == objOf(info, rs.Results[0]) && objOf(info, sel.X) != nil {
+					ret = true
+				}
+				// both written as the field itself, under the one read section: s.root.AddRef(); return s.root
+				if isField(info, sel.X, "Scorch", "root") && isField(info, rs.Results[0], "Scorch", "root") {
+					ret = true
+				}
 			}
 		}
 	}
